@@ -25,6 +25,7 @@ import PsdVerif.Lemmas.MergedQuant
 import PsdVerif.Props.C11
 import PsdVerif.Props.C13
 import PsdVerif.Generated.MergedPixels
+import PsdVerif.Generated.Pixels
 set_option linter.unusedSimpArgs false
 
 namespace PsdVerif.C17
@@ -430,12 +431,14 @@ open PsdVerif.MergedPixels
 `np.round(np.clip(v, 0.0, 1.0) * scale)` as big-endian unsigned integers of `depth // 8` bytes; the flattening
 statement weighs the colour with `alpha` — the THIRD component of what `composite` returns (the second, the
 shape, is discarded) — and is guarded by `not transparency or RGB`; the only `constant − x` in the function is
-that `1.0 - alpha` (no colour inversion, for CMYK or otherwise); colour plane `index` receives `color[:, :, index]`,
+that `1.0 - alpha` (no colour inversion, for CMYK or otherwise); `n = EXPECTED_CHANNELS[mode]` is the model's
+`CMode.expected` (1 / 3 / 4 colour planes for grayscale / RGB / CMYK); colour plane `index` receives `color[:, :, index]`,
 plane `max(index, n)` the alpha; the planes that are there are kept, or replaced by 1.0 when unreadable; there is
 one early `return None`, and no statement the model does not know. -/
 theorem merged_pixels_tied :
     Generated.MergedPixels.scaleTable = scaleTable ∧
     Generated.MergedPixels.supportedModes = [CMode.gray.name, CMode.rgb.name, CMode.cmyk.name] ∧
+    (∀ c ∈ [CMode.gray, CMode.rgb, CMode.cmyk], (c.name, c.expected) ∈ Generated.Pixels.expectedChannels) ∧
     Generated.MergedPixels.guard = "header.depth not in scale or self.color_mode not in (ColorMode.GRAYSCALE, ColorMode.RGB, ColorMode.CMYK)" ∧
     Generated.MergedPixels.noneReturns = [Generated.MergedPixels.guard] ∧
     Generated.MergedPixels.planeBody =
@@ -455,7 +458,7 @@ theorem merged_pixels_tied :
       "index = get_transparency_index(self) % header.channels; planes[max(index, n)] = plane(alpha[:, :, 0])" ∧
     Generated.MergedPixels.returns = "planes" ∧
     Generated.MergedPixels.topLevel.length = 12 :=
-  ⟨rfl, rfl, rfl, rfl, rfl, rfl, rfl, rfl, rfl, rfl, rfl, rfl, rfl, rfl, rfl, rfl⟩
+  ⟨rfl, rfl, by decide, rfl, rfl, rfl, rfl, rfl, rfl, rfl, rfl, rfl, rfl, rfl, rfl, rfl, rfl⟩
 
 /-- the call `_merged_planes` makes — `composite(self, force=True)` — and what `composite` does with the
 arguments left out: backdrop colour 1.0 and alpha 0.0 (`backdropColor`, `backdropAlpha`), the document's
